@@ -1,5 +1,6 @@
 import Q1t.Proofs.CQasmStructure
 import Q1t.Proofs.CQasmNot
+import Q1t.Proofs.CQasmBracketSem
 import Q1t.Proofs.CQasmTemplates
 import Q1t.Proofs.CQasmGates1
 import Q1t.Proofs.CQasmGates2
@@ -98,6 +99,35 @@ theorem cq_bracketing_agrees_with_circuit (control : List Nat) (target w cw : Na
     control.all (fun k => CQ1.bitSet (flipBits w (notBits control target)) k) = true ↔ cw = target := by
   rw [bracket_fires control target w hnd, controlWord_eq_target control w cw target hcw]
   exact ⟨fun h => ⟨h, ht⟩, fun h => h.1⟩
+
+
+/-- **cq_not_bracketing, in the reference semantics** (`Spec/CQ1`): for every control list without repetition, target,
+state and word, the statements `not…; c-g b[..], …; not…` apply `g` iff the listed bits spell the target, and leave the
+word as it was.  `g` is any instruction that is a gate conditioned on `control` (`ControlledBy`). -/
+theorem cq_not_bracketing_sem_fires {α P : Type} [Zero α] [One α] [Add α] [Mul α] [Neg α] [Sub α] [Amp α P]
+    (S : CQ1.NumSem α P) (n : Nat) (nz : List α → Bool) (control : List Nat) (target : Nat)
+    (hnd : control.Nodup) (g : CQ1.Instr) (U : List α → List α) (hg : ControlledBy S n nz g control U)
+    (ψ : List α) (w : Nat) (hfire : ∀ i, ∀ (h : i < control.length), w.testBit control[i] = target.testBit i) :
+    CQ1.seqSem (CQ1.stmtSem S n nz)
+        ((notBits control target).map notStmt ++ [.one g] ++ (notBits control target).map notStmt) [(ψ, w)] =
+      some [(U ψ, w)] :=
+  bracket_sem_fires S n nz control target hnd g U hg ψ w hfire
+
+theorem cq_not_bracketing_sem_skips {α P : Type} [Zero α] [One α] [Add α] [Mul α] [Neg α] [Sub α] [Amp α P]
+    (S : CQ1.NumSem α P) (n : Nat) (nz : List α → Bool) (control : List Nat) (target : Nat)
+    (hnd : control.Nodup) (g : CQ1.Instr) (U : List α → List α) (hg : ControlledBy S n nz g control U)
+    (ψ : List α) (w : Nat) (hno : ¬ ∀ i, ∀ (h : i < control.length), w.testBit control[i] = target.testBit i) :
+    CQ1.seqSem (CQ1.stmtSem S n nz)
+        ((notBits control target).map notStmt ++ [.one g] ++ (notBits control target).map notStmt) [(ψ, w)] =
+      some [(ψ, w)] :=
+  bracket_sem_skips S n nz control target hnd g U hg ψ w hno
+
+/-- non-vacuity: `c-x b[…], q[t]` is such an instruction, for every control list and qubit -/
+example {α P : Type} [Zero α] [One α] [Add α] [Mul α] [Neg α] [Sub α] [Amp α P]
+    (S : CQ1.NumSem α P) (n : Nat) (nz : List α → Bool) (control : List Nat) (t : Nat) :
+    ControlledBy S n nz ⟨control, "x", [.q t]⟩ control (CQ1.applyOn n CQ1.mX [t]) := by
+  intro br
+  simp [CQ1.stmtSem, CQ1.instrSem, CQ1.gateMatrix, CQ1.numArgs, CQ1.Instr.qubits]
 
 /-- NEGATIVE (repeated control bit): `control = [0, 0]`, `target = 0`, word 1: bit 0 is negated twice, the exported
 line fires, the circuit's gate (control word 3 ≠ 0) does not. -/
